@@ -95,6 +95,15 @@ Theorem C19_qids : forall s0 d off cnt es s1 s2 e qw fw s3 s4 qg s5,
 Proof. exact readdir_walk_getattr_agree. Qed.
 Print Assumptions C19_qids.
 
+(** the hypotheses of C19_qids hold of every staticfs as staticfs.New/WithFile builds it (a.qids[name] is the
+    file's own wrapper's answer at construction), with any wrappers [w] around the directory; for a composefs root
+    [stored_ok] is [True] by definition *)
+Theorem C19_static_new_ok : forall s g names fs qs s' w,
+  static_new s g 0 names = (fs, qs, s') -> NoDup names ->
+  stored_ok s' (mkDir fs (Some (stored_of qs)) w) /\ NoDup (map fst (d_ents (mkDir fs (Some (stored_of qs)) w))).
+Proof. exact static_new_stored_ok. Qed.
+Print Assumptions C19_static_new_ok.
+
 (** every history of QIDFor calls, of any length, only extends the tables (so it may stand between the calls above) *)
 Theorem C19_histories_extend : forall h s, extends s (run_history s h).
 Proof. exact run_history_extends. Qed.
